@@ -566,6 +566,7 @@ func (fc *FnCtx) backEdge(li *LoopInfo, cond Term, phis map[*ssa.Phi]Term) {
 			if aa.Anchor == "loopback" && aa.Ord == li.Ord && aa.Cl != nil {
 				aa.Matched++
 				sc := fc.loopScope(li, fc.env)
+				sc.preferLate = true
 				name := fmt.Sprintf("%s:%s.back.assert#%d", fc.name, lname, aa.Cl.N)
 				if len(li.BackPreds) > 1 {
 					name += fmt.Sprintf("@%s", save.Name)
